@@ -24,18 +24,28 @@ CONFIG = {
                   "the real server.AcceptConnection (time compressed by shortening the deadlines the client sets), comparing per event "
                   "who served, which upstreams were dialled, how many physical connections the client holds; `polnet` runs real "
                   "client/server commands over TCP/TLS/websocket with a relay that cuts, dead/silent/garbage/insecure first upstreams "
-                  "and forward addresses.",
+                  "and forward addresses; `poltls` runs a verifying client (CA, no insecure flag, security required) over lists of real "
+                  "servers addressed by different names, of different kinds (tcp+tls, StartTLS, wss) and with different certificates, in "
+                  "both orders and across the loss of the serving upstream, against C16_verified_failover / _mirror / _reconnect, where "
+                  "usable is a function of the upstream alone (C16_usable_intrinsic).",
     "technique": "Lean 4 proof (inductive invariant over a transition system, all interleavings; characterisation of the sequential "
                  "policy function) + regenerated facts + scripted correspondence + e2e",
     "components": [{"name": "policy", "timeout": {"quick": 600, "thorough": 2400}},
-                   {"name": "polnet", "timeout": {"quick": 300, "thorough": 900}}],
+                   {"name": "polnet", "timeout": {"quick": 300, "thorough": 900}},
+                   {"name": "poltls", "timeout": {"quick": 600, "thorough": 1500}}],
     "rule": "policy: every upstream list of length 1..2 (thorough: 1..4, 780 lists) over {refused, silent, garbage, plain, secure} "
             "x security requirement x {reuse+cut+reconnect, concurrent+cut, close}; failing prefixes of every kind before the first "
             "usable upstream at every position of lists of 3..4; every forward-address form; 30 enumerated histories over "
             "{connect, connect+close, unknown channel, 2/3 concurrent, cut, restart, Shutdown, verify} on 10 lists incl. restart "
-            "scripts; random lists x random histories; malformed ops. polnet: enumerated scenarios x carriers. non-trivial = some "
+            "scripts; random lists x random histories; malformed ops. polnet: enumerated scenarios x carriers. poltls: fail-over (list + reversed list) for every unordered pair of "
+            "kinds {tcp+tls, StartTLS, wss} x the two upstreams addressed by different names x state pairs {cert both, nameonly, iponly, "
+            "dead}^2; kill / cut of the serving upstream for every ordered pair of kinds x names x second-upstream states; triples "
+            "(dead, unusable by name, healthy); thorough: 150 random lists of 2..3. monitor: the first upstream in list order that is "
+            "live and whose certificate carries the name it is addressed by serves; reversed list likewise. non-trivial = some "
             "local connection served; distinct = distinct op line",
-    "trusted_base": COMMON_TB + ["Go runtime, net.Pipe, smux (OpenStream fails on a lost carrier), go-multistream"],
+    "trusted_base": COMMON_TB + ["Go runtime, net.Pipe, smux (OpenStream fails on a lost carrier), go-multistream",
+                                 "x509 hypothesis of poltls: a certificate is accepted iff signed by the client's CA and carrying the "
+                                 "name (localhost / 127.0.0.1) the upstream is addressed by"],
     "assumptions": ["blocked = neither served nor refused within 4 s, confirmed by a rerun with 10 s",
                     "a silent peer is detected through the deadline the client sets (compressed to 40 ms); OS dial timeouts are not exercised",
                     "polnet deadlines 5 s + one retry; the silent-first scenario waits for the real 20 s HandshakeTimeout (thorough tier only)"],
